@@ -1152,7 +1152,8 @@ fn td_to_render_tree<'a, T: Write>(
         for attr in attrs.borrow().iter() {
             if &attr.name.local == "colspan" {
                 let v: &str = &attr.value;
-                colspan = v.parse().unwrap_or(1);
+                // HTML caps colspan at 1000; unbounded values overflow the column arithmetic.
+                colspan = v.parse::<usize>().unwrap_or(1).min(1000);
             }
         }
     }
